@@ -660,6 +660,8 @@ def run(tier, only=None):
     m11(rep)
     m12(rep)
     m13(rep)
+    from . import c03_routes
+    c03_routes.t10(rep, rule="M14")          # every formatted escape of a literal has a fixed width, in both C dialects
     mx = max(ch for ch, _, _ in rows if ch is not None)
     if mx >= bound:
         rep.violation("M3", "table-chars", "genc.c (ccSpecCharIdTable)", "character %d indexes tables of %d elements" % (mx, bound))
